@@ -337,7 +337,7 @@ func TestC04_CallPlans(t *testing.T) {
 			ev.Violation(rt, c04, "hang", kase, "calls did not finish:\n%s", goroutineDump())
 		}
 		// oneway calls: the handler runs asynchronously; wait for quiescence
-		deadline := time.Now().Add(boundArrive)
+		deadline := time.Now().Add(boundArrive())
 		for _, c := range calls {
 			for c.handled.Load() == 0 && time.Now().Before(deadline) {
 				time.Sleep(200 * time.Microsecond)
@@ -472,18 +472,18 @@ func TestC04_MalformedReplies(t *testing.T) {
 		var peer *netfx.RawPeer
 		select {
 		case peer = <-rs.peers:
-		case <-time.After(boundArrive):
+		case <-time.After(boundArrive()):
 			rt.Fatalf("infrastructure: no raw peer")
 		}
 		defer peer.Close()
-		f, ok := rs.next(boundArrive)
+		f, ok := rs.next(boundArrive())
 		if !ok || f.Code != netfx.CodeOpen {
 			rt.Fatalf("infrastructure: expected open frame, got %+v", f.Code)
 		}
 		peer.WriteMsg(netfx.CloseMsg(f.ID, reply))
 		select {
 		case <-done:
-		case <-time.After(boundArrive + 15*time.Second):
+		case <-time.After(boundArrive() + 15*time.Second):
 			ev.Violation(rt, c04, "malformed:hang", kase, "Request did not return after a malformed reply (%s)", desc)
 		}
 		if wantOK {
